@@ -12,6 +12,7 @@ Feature switches (dict f):
   empty_as_p    write an empty cell as <table:table-cell><text:p/></table:table-cell>
   encoding      XML encoding of content.xml (UTF-8, UTF-16, ISO-8859-1)
   annotations   every non-empty cell that is not part of a run carries a comment (office:annotation with paragraphs of its own)
+  pretty        content.xml indented by a pretty printer (white space between table, row, cell and paragraph elements)
   filler        extra non-table content (styles, settings) a real office suite would write
 """
 import zipfile
@@ -66,7 +67,7 @@ def encode_cell_content(text, f):
     if text == "":
         return "<text:p/>" if f.get("empty_as_p") else ""
     if f.get("paragraphs") and "\n" in text:
-        return "".join("<text:p>%s</text:p>" % encode_text(p, f) for p in text.split("\n"))
+        return ("\n            " if f.get("pretty") else "").join("<text:p>%s</text:p>" % encode_text(p, f) for p in text.split("\n"))
     span_range = f.get("span_range")
     if span_range is not None and len(text) > span_range[0] + 1:
         # an inline element around text[i:j] (whatever it contains, also whitespace elements), with literal text before and after
@@ -100,12 +101,15 @@ def encode_row(cells, f):
             # a cell comment: its paragraphs belong to the annotation, not to the cell's content
             inner = ANNOTATION % index + inner
         cell_attributes = ' office:value-type="string"' if inner and f.get("filler") else ""
-        if inner:
+        if inner and f.get("pretty"):
+            # indented like the output of an XML pretty printer: white space between the elements of a cell is no content
+            out.append("<table:table-cell%s%s>\n            %s\n          </table:table-cell>" % (attribute, cell_attributes, inner))
+        elif inner:
             out.append("<table:table-cell%s%s>%s</table:table-cell>" % (attribute, cell_attributes, inner))
         else:
             out.append("<table:table-cell%s/>" % attribute)
         index = end + 1
-    return "".join(out)
+    return ("\n          " if f.get("pretty") else "").join(out)
 
 
 def encode_table(rows, f, name):
@@ -118,7 +122,10 @@ def encode_table(rows, f, name):
                 end += 1
         count = end - index + 1
         attribute = ' table:number-rows-repeated="%s"' % f.get("row_count_text", count) if count > 1 or "row_count_text" in f else ""
-        out.append("<table:table-row%s>%s</table:table-row>" % (attribute, encode_row(rows[index], f)))
+        if f.get("pretty"):
+            out.append("\n        <table:table-row%s>\n          %s\n        </table:table-row>" % (attribute, encode_row(rows[index], f)))
+        else:
+            out.append("<table:table-row%s>%s</table:table-row>" % (attribute, encode_row(rows[index], f)))
         index = end + 1
     columns = ""
     if f.get("filler"):
